@@ -39,14 +39,17 @@ func build(expr logql.Expr, sel SampleSelector, params EvalParams) (_ StepIterat
 			start  = params.Start
 			end    = params.End
 		)
+		// The offset moves the sampled window back in time; the evaluation
+		// grid (and so the timestamps of the result) stays at [start, end].
+		var offset time.Duration
 		if o := qrange.Offset; o != nil {
-			start = start.Add(-o.Duration)
-			end = end.Add(-o.Duration)
+			offset = o.Duration
 		}
 		// Query samples for first step.
-		qstart := start.Add(-qrange.Range)
+		qstart := start.Add(-offset).Add(-qrange.Range)
+		qend := end.Add(-offset)
 
-		iter, err := sel(expr, qstart, end)
+		iter, err := sel(expr, qstart, qend)
 		if err != nil {
 			return nil, errors.Wrap(err, "get samples iterator")
 		}
